@@ -10,6 +10,7 @@ import (
 	"net/netip"
 	"os"
 	"sync"
+	"syscall"
 	"time"
 
 	"github.com/DataDog/datadog-traceroute/packets"
@@ -232,6 +233,9 @@ func (s *memSink) WriteTo(buf []byte, addrPort netip.AddrPort) error {
 	if f, ok := s.w.faultRec("write", k); ok {
 		if f.Class == "fatal-slow" && f.SlowBy > 0 {
 			time.Sleep(f.SlowBy) // the send is in flight while other things happen
+		}
+		if f.Class == "enobufs" { // transient kernel condition: this one write fails, the next would succeed
+			return os.NewSyscallError("sendto", syscall.ENOBUFS)
 		}
 		return fmt.Errorf("write: %w", errWireInjected)
 	}
